@@ -10,7 +10,7 @@ def jMix (m : Mix) : Json := Json.mkObj [
   ("betaA", jRat m.betaA), ("betaB", jRat m.betaB), ("rate", jRat m.rate), ("odds", jRat m.odds),
   ("pi", jRat m.pi), ("shape", jRat m.shape), ("scale", jRat m.scale)]
 
-def jEntry (e : Entry) : Json := Json.mkObj [
+def jEntryC13 (e : Entry) : Json := Json.mkObj [
   ("iter", jNat e.iter), ("alpha", jRat e.alpha), ("used", jRat e.used)]
 
 def handleC13 : Handler := fun op j =>
@@ -48,7 +48,7 @@ def handleC13 : Handler := fun op j =>
     let init ← getRat j "init"
     let draws ← asVec (← j.getObjVal? "draws")
     if thin = 0 then throw "thin = 0"
-    pure (Json.arr ((runTrace upd thin init draws).map jEntry).toArray)
+    pure (Json.arr ((runTrace upd thin init draws).map jEntryC13).toArray)
   | _ => none
 
 end PhyModel.Drv
